@@ -461,7 +461,7 @@ def frame_diff(before, after, phase):
 
 def run(ctx):
     pyr = random.Random(ctx.seed)
-    ctx.proof_layer(allowed_axioms=(), coq_deps=["Corr/RunState"], gen=["model_state"])
+    ctx.proof_layer(allowed_axioms=(), coq_deps=["Corr/RunState"], gen=["model_state", "cm_repopulate"])
     core.note_drift(ctx, ANCHORS)
     ncases = ctx.budget(300, 3000)
     data_rng = np.random.default_rng(5)
